@@ -195,6 +195,10 @@ def repo_self(b, inline=(), extra=None, props=True, cache=True):
         me.props, me.enc = p, enc
     if cache:
         attrs['_cache_directory'] = sym.const(Opt(STR), 'cache_directory')
+    attrs['_quiet'] = sym.const(BOOL, 'quiet')
+    conc = sym.const(INT, 'concurrent')
+    b.assume(conc.z >= 1)
+    attrs['_concurrent'] = conc
     for nm in inline:
         c = _real_method(REPO_PY, 'Repository.' + nm)
         c.bound_self = me
@@ -229,3 +233,112 @@ def split_known(res, path_or_pc, name, goal, fid, within, tag='top', meta=None):
         res.oblige(pc + [within], f'{name}[within {fid}]', goal, f'known:{fid}', meta)
     else:
         res.oblige(pc, name, goal, tag, meta)
+
+
+# ---- snapshot bodies as loaded by _load_snapshots (contract-level view) -------
+BODY = models.opaque_type('Body', pytype='dict')
+SNAPDATA = models.opaque_type('SnapData', pytype='dict')
+CHUNKLIST = models.opaque_type('ChunkList', pytype='list')
+DIGESTSET = models._ArrTy(BYTES)
+
+
+def body_data(z):
+    return UF('body_data', BODY, Opt(SNAPDATA))(z)
+
+
+def body_chunks(z):
+    return UF('body_chunks', BODY, CHUNKLIST)(z)
+
+
+def chunkset(z):
+    """set view of a chunk table"""
+    return UF('chunkset', CHUNKLIST, DIGESTSET)(z)
+
+
+def chunk_at(z, i):
+    return UF('chunk_at', CHUNKLIST, INT, BYTES)(z, i)
+
+
+def chunk_len(z):
+    return UF('chunk_len', CHUNKLIST, INT)(z)
+
+
+def _body_getitem(interp, st, v, idx):
+    if idx == 'data':
+        yield st, SV(Opt(SNAPDATA), body_data(v.z))
+    elif idx == 'chunks':
+        yield st, SV(CHUNKLIST, body_chunks(v.z))
+    else:
+        raise Unsupported(f'body[{idx!r}]')
+
+
+BODY.getitem = _body_getitem
+CHUNKLIST.elems = lambda interp, st, v: (chunkset(v.z), BYTES)
+
+
+def _chunklist_getitem(interp, st, v, idx):
+    zi = lift(idx, INT).z
+    n = chunk_len(v.z)
+    for s, ok in interp.branch(st, z3.And(0 <= zi, zi < n)):   # negative indices: not produced by replicat
+        if ok:
+            r = chunk_at(v.z, zi)
+            s.assume(z3.Select(chunkset(v.z), r))
+            yield s, SV(BYTES, r)
+        else:
+            yield s, Raised(Exc('IndexError'))
+
+
+CHUNKLIST.getitem = _chunklist_getitem
+
+
+class Loaded:
+    """ghost: the sequence yielded by _load_snapshots() in this command"""
+
+    def __init__(self, tagname='L'):
+        self.n = z3.Int(f'{tagname}_n')
+        self.P = z3.Const(f'{tagname}_paths', z3.ArraySort(z3.IntSort(), z3.StringSort()))
+        self.Bd = z3.Const(f'{tagname}_bodies', z3.ArraySort(z3.IntSort(), BODY.sort()))
+
+    def path(self, i):
+        return z3.Select(self.P, i)
+
+    def body(self, i):
+        return z3.Select(self.Bd, i)
+
+    def chunks(self, i):
+        return chunkset(body_chunks(self.body(i)))
+
+    def readable(self, i):
+        return z3.Not(Opt(SNAPDATA).is_none(body_data(self.body(i))))
+
+
+def snap_name(z):
+    """contract of parse_snapshot_location(path).name (proved in C08.loc)"""
+    return UF('snap_name', STR, STR)(z)
+
+
+def snap_tag(z):
+    return UF('snap_tag', STR, STR)(z)
+
+
+def parse_snapshot_location_model():
+    def fn(interp, st, args, kwargs):
+        (p,) = args
+        z = lift(p, STR).z
+        yield st, make_ntup(('name', 'tag'), (SV(STR, snap_name(z)), SV(STR, snap_tag(z))))
+    return Model('parse_snapshot_location', fn)
+
+
+def load_snapshots_model(b, L, with_regex=False):
+    """contract of Repository._load_snapshots used at call sites (its own unit: C04.load)."""
+    from vf.interp import IterSpec
+    i, j = z3.Ints('li lj')
+    b.assume(L.n >= 0)
+    # each listed path is yielded at most once (list_files yields each live name once [A],
+    # as_completed delivers each future once [A])
+    b.assume(z3.ForAll([i, j], z3.Implies(z3.And(0 <= i, i < j, j < L.n), L.path(i) != L.path(j))))
+
+    def fn(interp, st, args, kwargs):
+        st.emit('load_snapshots', kwargs=dict(kwargs))
+        yield st, IterSpec(L.n, lambda k: (SV(STR, L.path(k)), SV(BODY, L.body(k))))
+    return Model('_load_snapshots', fn)
